@@ -49,6 +49,8 @@ Definition tp_iadd (p : timepar) (x : Q) := tp_set_v p (tp_v p + x).
 Definition tp_isub (p : timepar) (x : Q) := tp_set_v p (tp_v p - x).
 
 (* ---- crude rates reported by the demographics modules (Births.update_results, Deaths.finalize, Pregnancy.finalize): the events counted in one step
-   of the module, per person alive, per rate unit, divided by a step length in years.  The code divides by the SIM's step (sim.t.dt_year). *)
+   of the module, per person alive, per rate unit, divided by a step length in years: the module's own (own = true) or the sim's.  Which one the
+   code uses is the GENERATED crude_rate_divisor_gen (Gen_Demog). *)
 Definition crude_rate (count alive rate_units dt_year : Q) : Q := count / alive / (rate_units * dt_year).
-Definition crude_rate_reported (count alive rate_units sim_dt_year module_dt_year : Q) : Q := crude_rate count alive rate_units sim_dt_year.
+Definition crude_rate_reported (own : bool) (count alive rate_units sim_dt_year module_dt_year : Q) : Q :=
+  crude_rate count alive rate_units (if own then module_dt_year else sim_dt_year).
